@@ -245,7 +245,7 @@ def handlers(emit, repo):
                 rb["digests2"] = []
             # the report
             report = {"error": "", "files": [], "blocks": []}
-            cli = {"rc": 0, "files": [], "diff": []}
+            cli = {"rc": 0, "files": [], "diff": [], "variants": []}
             if results is not None:
                 before = set(listing(scratch))
                 try:
@@ -281,6 +281,25 @@ def handlers(emit, repo):
                             if len(x) != len(y):
                                 diff.append("block %d length" % (b + 1))
                     cli["diff"] = diff[:20]
+                    # other ways of typing the command (module Batch, CliRules): debug logging must not
+                    # change the report; without -s nothing is written; an unknown log level is refused
+                    cli["variants"] = []
+                    for vname, extra, save in ((("debug", ["-l", "d"], True), ("info", ["-l", "INFO"], True),
+                                                ("nosave", [], False), ("badlevel", ["-l", "verbose"], True))
+                                               if job.get("clivariants") else ()):
+                        shutil.rmtree(os.path.join(scratch2, "outputs"))
+                        os.makedirs(os.path.join(scratch2, "outputs"))
+                        b3 = set(listing(scratch2))
+                        p3 = subprocess.run([sys.executable, os.path.join(repo, "conditionalrewards.py"), "-f", rel]
+                                            + (["-s"] if save else []) + extra,
+                                            cwd=scratch2, stdout=subprocess.DEVNULL, stderr=subprocess.DEVNULL,
+                                            timeout=300, env=dict(os.environ, PYTHONDONTWRITEBYTECODE="1"))
+                        vblocks = parse_report(cpath, unmap) if os.path.exists(cpath) else []
+                        same = len(vblocks) == len(cblocks) and all(
+                            len(x) == len(y) and all(lx == ly for lx, ly in zip(x, y) if lx["label"] != "Total time")
+                            for x, y in zip(vblocks, cblocks))
+                        cli["variants"].append({"name": vname, "rc": 0 if p3.returncode == 0 else 1,
+                                                "files": sorted(set(listing(scratch2)) - b3), "same": same})
                 finally:
                     shutil.rmtree(scratch2, ignore_errors=True)
             emit({"e": "Batch", "solos": solos, "out": out, "report": report, "readback": rb,
